@@ -47,3 +47,7 @@ EXTRA += [
                                              "DsProofs.C01.C01_rows_mapfork", "DsProofs.C01.C01_rows_mapfork_simple", "DsProofs.C01.C01_rows_present",
                                              "DsProofs.C01.C01_score", "DsProofs.C01.C01_score_shapley", "DsProofs.C01.C01_score_rows", "DsProofs.C01.C01_score_accuracy"]),
 ]
+EXTRA += [
+    ("C02", "DsProofs.Properties.C02", ["DsProofs.C02.C02_point", "DsProofs.C02.C02_main", "DsProofs.C02.C02_distinct", "DsProofs.C02.C02_knn1",
+                                         "DsProofs.C02.C02_null_below_K", "DsProofs.C02.C02_present_mono", "DsProofs.C02.C02_game_def", "DsProofs.C02.C02_value_def"]),
+]
